@@ -242,6 +242,8 @@ def run_rule(ctx, rule_name, tier, part, parts):
         if element == "metadata":
             continue  # judged separately below against 'at most one child'
         out = judge(ctx, rule_name, element, seq, expected, stats, reuse=((n // 6) % 3 == 0))
+        if n % 101 == 0:
+            ctx.later(lambda c, r=rule_name, e=element, s_=seq, x=expected: judge(c, r, e, s_, x))
         ctx.distinct((rule_name, seq))
         if n % 9973 == 1:
             ctx.sample({"rule": rule_name, "element": element, "children": _materialise(seq, spec.names),
